@@ -27,11 +27,12 @@ ASSUMPTIONS = ["element names are unique (members given by reference column 'nam
                "ops that raise are rejected edits: net and model are rolled back",
                "element drops remove the elements from every group (the model follows the element tables)"]
 REACH_PROBES = ["group_with_reference_column", "attach_with_mismatching_reference_column", "group_emptied",
-                "element_drop_with_members", "reindex_with_members", "res_sum_checked", "setter_checked"]
+                "element_drop_with_members", "reindex_with_members", "res_sum_checked", "setter_checked",
+                "groups_created_from_shared_argument_lists", "attach_to_several_groups"]
 
 TEMPLATES = [("feeder", 4), ("case9", 3), ("feeder_t3w", 2), ("four_bus", 1)]
 MEMBER_ET = ["load", "sgen", "line", "bus", "gen", "trafo", "switch"]
-OPS_W = [("create_group", 4), ("attach", 6), ("detach", 5), ("detach_all", 2), ("drop_group", 1),
+OPS_W = [("create_group", 4), ("attach", 6), ("attach_many", 2), ("detach", 5), ("detach_all", 2), ("drop_group", 1),
          ("drop_group_and_elements", 1), ("set_refcol", 3), ("drop_el", 4), ("reindex", 4), ("reindex_group", 1),
          ("in_service", 2), ("set_value", 2), ("res_sum", 2), ("create", 2)]
 
@@ -51,12 +52,16 @@ def generate(rng, idx, tier):
     for _ in range(rng.randint(12, 40)):
         f = c08._wchoice(rng, OPS_W)
         op = {"op": f, "g": rng.randrange(100), "a": rng.randrange(1000), "b": rng.randrange(1000)}
-        if f in ("create_group", "attach", "detach", "detach_all"):
-            n_t = rng.randint(1, 3) if f in ("create_group", "attach") else 1
+        if f in ("create_group", "attach", "attach_many", "detach", "detach_all"):
+            n_t = rng.randint(1, 3) if f in ("create_group", "attach", "attach_many") else 1
             op["types"] = rng.sample(MEMBER_ET, n_t)
             op["n"] = [rng.randint(1, 3) for _ in range(n_t)]
             op["refcol"] = rng.choice([None, None, "name"])
             op["from_dict"] = rng.random() < 0.3
+            if f == "create_group":
+                op["twice"] = rng.random() < 0.2     # a second group from the very same argument lists
+            if f == "attach_many":
+                op["g2"] = rng.randrange(100)
         elif f == "set_refcol":
             op["refcol"] = rng.choice([None, "name", "name"])
             op["et"] = rng.choice([None, None] + MEMBER_ET[:3])
@@ -256,6 +261,37 @@ def apply_op(net, model, op, ctx, fam, bad):
             new = pp.create_group(net, types, args, name=f"g{op['a']}", reference_columns=rc)
         fam[0] = "create_group" + (":refcol" if rc else "")
         model.g[new] = {et: set(m) for et, m in zip(types, idxs)}
+        if op.get("twice"):
+            # the caller reuses its lists for a second group: the groups must stay independent of each other
+            if op["from_dict"]:
+                new2 = pp.create_group_from_dict(net, dict(zip(types, args)), name=f"g{op['a']}b", reference_column=rc)
+            else:
+                new2 = pp.create_group(net, types, args, name=f"g{op['a']}b", reference_columns=rc)
+            model.g[new2] = {et: set(m) for et, m in zip(types, idxs)}
+            ctx.probe("groups_created_from_shared_argument_lists")
+        return "ok"
+    if k == "attach_many":
+        if len(existing) < 2:
+            return "noop"
+        gis = sorted({gi, ops.pick(existing, op.get("g2", 0))})
+        if len(gis) < 2:
+            gis = existing[:2]
+        types, idxs = [], []
+        for et, n in zip(op["types"], op["n"]):
+            m = _pick_members(net, et, op["a"], n)
+            if m:
+                types.append(et)
+                idxs.append(m)
+        if not types:
+            return "noop"
+        rc = op["refcol"]
+        args = [_members_arg(net, et, m, rc) for et, m in zip(types, idxs)]
+        G.attach_to_groups(net, gis, types, args, reference_columns=rc)
+        fam[0] = "attach_to_groups" + (":refcol" if rc else "")
+        for g in gis:
+            for et, m in zip(types, idxs):
+                model.g[g].setdefault(et, set()).update(m)
+        ctx.probe("attach_to_several_groups")
         return "ok"
     if k == "attach":
         if gi is None:
